@@ -62,6 +62,7 @@ func (g *Gen) GenFunc(key string) (res *FnResult) {
 	c.emit(fmt.Sprintf("(assert (>= %s 1))", c.next0))
 	c.emit(fmt.Sprintf("(assert (= wfnext@0 %s))", c.next0))
 	st.next = c.next0
+	st.tagLo = c.next0
 	var args []Val
 	fr0 := &frame{c: c, fn: fn}
 	for _, p := range fn.Params {
